@@ -637,12 +637,12 @@ impl Scenario for C14 {
         }
     }
     fn rule(&self) -> String {
-        "Build: opt-level 2 with overflow-checks and debug-assertions ON. Every call into the crates under test runs under catch_unwind; a caught panic whose payload is not the simulator's own clock-abort token is a violation, keyed by operation and panic site. Workloads: (a) the run generators of C05, C08, C09, C10, C11, C12, C13, C16 and C17 re-used unchanged (their own oracles are ignored here); (b) hostile_det: all 19 deterministic types and the 3 public cores, all-0x00 / all-0xFF / 0x80.. / random seeds, u64 edge seeds, from_rng / try_from_rng with every source fault kind, pre-advance to every buffer index, 1..220 ops of next_u32/next_u64/fill_bytes(0..3 blocks+7)/jump/long_jump/clone/==/Debug/serde snapshot+restore; (c) hostile_jitter: JitterRng with rounds 1..=255 over clocks where jump_pos31, jump_neg31, jump_2p32, backward, big_pause (plus wrap_u64, zero_reading and the rest of the catalogue) are placed densely (2-40% of readings) so they land on the first, second and third delta of collections and of test_timer; ops next_u32/next_u64/fill_bytes/timer_stats/set_rounds(>=1)/clone/Debug/test_timer followed by set_rounds(result). set_rounds(0) is never issued (documented panic). distinct_nontrivial = distinct (workload, type, seeding route / op kind / enabled clock-fault set) signatures. Also: (hostile_snapshot) a stored image comes back damaged (JSON arrays longer/shorter/nested, fields missing/renamed/unknown, scalars replaced; bincode torn/extended/flipped), read back through slice, reader and Value: deserialising may fail, it must not panic; (seeding_sweep) 1500..4000 constructions per run from consecutive/sparse/hashed seeds; set_rounds(0) contained and followed by further use; Debug also while the thread unwinds / on another thread.".into()
+        "Build: opt-level 2 with overflow-checks and debug-assertions ON. Every call into the crates under test runs under catch_unwind; a caught panic whose payload is not the simulator's own clock-abort token is a violation, keyed by operation and panic site. Workloads: (a) the run generators of C05, C08, C09, C10, C11, C12, C13, C16 and C17 re-used unchanged (their own oracles are ignored here); (b) hostile_det: all 19 deterministic types and the 3 public cores, all-0x00 / all-0xFF / 0x80.. / random seeds, u64 edge seeds, from_rng / try_from_rng with every source fault kind, pre-advance to every buffer index, 1..220 ops of next_u32/next_u64/fill_bytes(0..3 blocks+7)/jump/long_jump/clone/==/Debug/serde snapshot+restore; (c) hostile_jitter: JitterRng with rounds 1..=255 over clocks where jump_pos31, jump_neg31, jump_2p32, backward, big_pause (plus wrap_u64, zero_reading and the rest of the catalogue) are placed densely (2-40% of readings) so they land on the first, second and third delta of collections and of test_timer; ops next_u32/next_u64/fill_bytes/timer_stats/set_rounds/clone/Debug/test_timer followed by set_rounds(result); set_rounds(0), the one documented panic, is issued, contained, and followed by further use. distinct_nontrivial = distinct (workload, type, seeding route / op kind / enabled clock-fault set) signatures. Also: (hostile_snapshot) a stored image comes back damaged (JSON arrays longer/shorter/nested, fields missing/renamed/unknown, scalars replaced; bincode torn/extended/flipped), read back through slice, reader and Value: deserialising may fail, it must not panic; (seeding_sweep) 1500..4000 constructions per run from consecutive/sparse/hashed seeds; set_rounds(0) contained and followed by further use; Debug also while the thread unwinds / on another thread.".into()
     }
     fn assumptions(&self) -> Vec<String> {
         vec![
             "a JitterRng output call that does not return within 60000 further timer readings is aborted by the simulated clock and the run is discarded (documented: may fail to return while the timer stays stuck)".into(),
-            "corrupted or truncated snapshots are out of scope".into(),
+            "damaged snapshots: only 'deserialising does not panic' is demanded; a generator restored from a damaged image is not used further".into(),
         ]
     }
     fn components(&self) -> serde_json::Value {
